@@ -1,5 +1,266 @@
-import TomlVerif.Model.Write
-import TomlVerif.Model.Key
+import TomlVerif.Lemmas.Guards10
+/-! # C10 — string and key quoting is exact for every string in every offered style
+
+Model: `Model/Write.lean` (toml_write/src/string.rs), `Model/Strings.lean`, `Model/Key.lean`
+(toml_edit/src/parser/{strings,key}.rs).  Every theorem quantifies over **all** byte strings `s`
+(no length bound; not even UTF-8 validity is needed) and over every continuation `rest` whose first
+byte cannot extend the token.  Property theorems only; helper lemmas live in `Lemmas/`. -/
 namespace TomlVerif.Props.C10
-theorem placeholder : True := trivial
+open TomlVerif TomlVerif.Spec TomlVerif.Model.Write TomlVerif.Model.Strings TomlVerif.Model.Key TomlVerif.Lemmas
+
+/-- what may follow a string token: not another quote character
+    (in a document: ws, newline, `,`, `]`, `}`, `#` or end of input) -/
+def ValueFollow (rest : Bytes) : Prop := rest.head? ≠ some 0x22 ∧ rest.head? ≠ some 0x27
+/-- what may follow a key token: not a bare-key character (in a document: ws, `.`, `=`, `]`) -/
+def KeyFollow (rest : Bytes) : Prop := ∀ x r, rest = x :: r → isUnquotedChar x = false
+
+/-- **Basic strings** (also what `as_basic_pretty` emits): every byte string, any `seq`-independent. -/
+theorem T10_basic (s rest : Bytes) (nl : Bool) (hr : rest.head? ≠ some 0x22) :
+    string (writeTomlValue s (some .basic) nl ++ rest) = .ok s rest := by
+  have hb : basicString (writeTomlValue s (some .basic) nl ++ rest) = .ok s rest := by
+    simp [writeTomlValue, delimiter, isMl, isEscaped, basicString]
+    have := basic_body_rt s 0 ((escBody false 0 s ++ 0x22 :: rest).length + 1) rest [] (by omega)
+    simpa using this
+  have hm : mlBasicString (writeTomlValue s (some .basic) nl ++ rest) = .bt := by
+    simp [writeTomlValue, delimiter, isMl, isEscaped]
+    by_cases hs : s = []
+    · subst hs
+      cases rest with
+      | nil => rfl
+      | cons y r => simpa [escBody] using mlBasicString_bt_of_third y r (head_ne_of _ _ y r hr rfl)
+    · obtain ⟨x, u, e, hx⟩ := escBody_single_head s 0 rest hs
+      rw [e]; exact mlBasicString_bt_of_second x u hx
+  unfold string
+  rw [hm, hb]
+
+/-- **Literal strings**: whenever the style is offered. -/
+theorem T10_literal (s rest : Bytes) (e : Encoding) (h : vAsLiteral (valueMetrics s) = some e)
+    (hr : rest.head? ≠ some 0x27) :
+    string (writeTomlValue s (some e) (valueMetrics s).newline ++ rest) = .ok s rest := by
+  obtain ⟨he, hm⟩ := vAsLiteral_some _ _ h
+  subst he
+  obtain ⟨f1, f2, _, _, f5⟩ := vm_fold s ({}, 0, 0)
+  unfold valueMetrics at hm
+  rw [f1, f2] at hm
+  have hall : s.all isLiteralChar = true := by
+    have q := f5 hm.2.1
+    simp at hm q
+    simp only [List.all_eq_true]
+    intro b hb
+    exact value_literal_ok b (hm.1 b hb) (by simpa using q b hb) (hm.2.2 b hb)
+  have hlit : literalString (0x27 :: (s ++ 0x27 :: rest)) = .ok s rest := literal_rt s rest hall
+  have hml : mlLiteralString (0x27 :: (s ++ 0x27 :: rest)) = .bt := by
+    cases s with
+    | nil =>
+      cases rest with
+      | nil => rfl
+      | cons y r => exact mlLiteralString_bt_of_third y r (head_ne_of _ _ y r hr rfl)
+    | cons b s =>
+      simp only [List.all_cons, Bool.and_eq_true] at hall
+      have : b ≠ 0x27 := by intro e; subst e; simp [isLiteralChar, inR, isNonAscii] at hall
+      exact mlLiteralString_bt_of_second b _ this
+  simp only [writeTomlValue, delimiter, isMl, isEscaped]
+  simp
+  unfold string
+  simp [mlBasicString, basicString, hml, hlit]
+
+/-- **Multi-line basic strings** (also what `as_ml_basic_pretty` emits): every byte string. -/
+theorem T10_ml_basic (s rest : Bytes) (hr : rest.head? ≠ some 0x22) :
+    string (writeTomlValue s (some .mlBasic) (valueMetrics s).newline ++ rest) = .ok s rest := by
+  obtain ⟨_, f2, _, _, _⟩ := vm_fold s ({}, 0, 0)
+  have hbody : ∀ fuel, (escBody true 0 s ++ 0x22 :: 0x22 :: 0x22 :: rest).length < fuel →
+      mlBasicBody fuel (escBody true 0 s ++ 0x22 :: 0x22 :: 0x22 :: rest) [] = .ok s rest := by
+    intro fuel hf
+    have := mlb_body_rt s 0 fuel rest [] (by omega) hr (by simpa using hf)
+    simpa using this
+  have hm : mlBasicString (writeTomlValue s (some .mlBasic) (valueMetrics s).newline ++ rest) = .ok s rest := by
+    simp only [writeTomlValue, delimiter, isMl, isEscaped, Bool.and_true]
+    by_cases hn : (valueMetrics s).newline = true
+    · simp [hn, mlBasicString, newline?]
+      exact hbody _ (by simp only [List.length_append, List.length_cons]; omega)
+    · have hn' : (valueMetrics s).newline = false := by simpa using hn
+      unfold valueMetrics at hn'
+      rw [f2] at hn'
+      have hhead : s.head? ≠ some 0x0A := by
+        cases s with
+        | nil => simp
+        | cons b t => simp at hn' ⊢; exact hn'.1
+      have hnl := escBody_ml_no_newline s rest hhead
+      simp [hn, mlBasicString, hnl]
+      exact hbody _ (by simp only [List.length_append, List.length_cons]; omega)
+  unfold string
+  rw [hm]
+
+/-- **Multi-line literal strings**: whenever the style is offered. -/
+theorem T10_ml_literal (s rest : Bytes) (e : Encoding) (h : vAsMlLiteral (valueMetrics s) = some e)
+    (hr : rest.head? ≠ some 0x27) :
+    string (writeTomlValue s (some e) (valueMetrics s).newline ++ rest) = .ok s rest := by
+  obtain ⟨he, hm⟩ := vAsMlLiteral_some _ _ h
+  subst he
+  obtain ⟨f1, f2, _, f4, _⟩ := vm_fold s ({}, 0, 0)
+  unfold valueMetrics at hm
+  have hnt : noTriple 0x27 0 s = true := f4 hm.2
+  rw [f1] at hm
+  have hall : s.all mllOK = true := by
+    have h1 := hm.1
+    simp at h1
+    simp only [List.all_eq_true]
+    intro b hb
+    exact mll_ok_of_no_esc b (h1 b hb)
+  have hbody : ∀ fuel, (s ++ 0x27 :: 0x27 :: 0x27 :: rest).length < fuel →
+      mlLiteralBody fuel (s ++ 0x27 :: 0x27 :: 0x27 :: rest) [] = .ok s rest := by
+    intro fuel hf
+    have := mll_body_rt s 0 fuel rest [] (by omega) hr hnt hall (by simpa using hf)
+    simpa using this
+  have hml : mlLiteralString (writeTomlValue s (some .mlLiteral) (valueMetrics s).newline ++ rest) = .ok s rest := by
+    simp only [writeTomlValue, delimiter, isMl, isEscaped, Bool.and_true]
+    by_cases hn : (valueMetrics s).newline = true
+    · simp [hn, mlLiteralString, newline?]
+      exact hbody _ (by simp only [List.length_append, List.length_cons]; omega)
+    · have hn' : (valueMetrics s).newline = false := by simpa using hn
+      unfold valueMetrics at hn'
+      rw [f2] at hn'
+      have hnl : newline? (s ++ 0x27 :: 0x27 :: 0x27 :: rest) = none := by
+        cases s with
+        | nil => simp [newline?]
+        | cons b t =>
+          simp at hn'
+          simp only [List.all_cons, Bool.and_eq_true] at hall
+          have hA : b ≠ 0x0A := hn'.1
+          have hD : b ≠ 0x0D := by intro e; subst e; simp [mllOK, isMllChar, isLiteralChar, inR, isNonAscii] at hall
+          simp only [List.cons_append]
+          unfold newline?
+          split
+          · rename_i r h; injection h with h _; exact absurd h hA
+          · rename_i r h; injection h with h _; exact absurd h hD
+          · rfl
+      simp [hn, mlLiteralString, hnl]
+      exact hbody _ (by simp only [List.length_append, List.length_cons]; omega)
+  unfold string
+  have hb1 : mlBasicString (writeTomlValue s (some .mlLiteral) (valueMetrics s).newline ++ rest) = .bt := by
+    simp [writeTomlValue, delimiter, mlBasicString]
+  have hb2 : basicString (writeTomlValue s (some .mlLiteral) (valueMetrics s).newline ++ rest) = .bt := by
+    simp [writeTomlValue, delimiter, basicString]
+  rw [hb1, hb2, hml]
+
+/-- **Every value style the builder offers** parses back to exactly the string. -/
+theorem T10_value (st : VStyle) (s tok rest : Bytes) (h : writeValue st s = some tok) (hr : ValueFollow rest) :
+    string (tok ++ rest) = .ok s rest := by
+  unfold writeValue at h
+  simp only [Option.map_eq_some_iff] at h
+  obtain ⟨e, he, htok⟩ := h
+  subst htok
+  have basic := T10_basic s rest (valueMetrics s).newline hr.1
+  have mlb := T10_ml_basic s rest hr.1
+  cases st with
+  | literal => exact T10_literal s rest e he hr.2
+  | mlLiteral => exact T10_ml_literal s rest e he hr.2
+  | basicPretty => rw [vAsBasicPretty_some _ _ he]; exact basic
+  | mlBasicPretty => rw [vAsMlBasicPretty_some _ _ he]; exact mlb
+  | basic => simp [valueEncoding] at he; subst he; exact basic
+  | mlBasic => simp [valueEncoding] at he; subst he; exact mlb
+  | default =>
+    simp only [valueEncoding, Option.some.injEq] at he
+    subst he
+    unfold vAsDefault
+    cases h1 : vAsBasicPretty (valueMetrics s) with
+    | some e1 => simp [Option.orElse]; rw [vAsBasicPretty_some _ _ h1]; exact basic
+    | none =>
+      cases h2 : vAsLiteral (valueMetrics s) with
+      | some e2 => simp [Option.orElse]; exact T10_literal s rest e2 h2 hr.2
+      | none =>
+        cases h3 : vAsMlBasicPretty (valueMetrics s) with
+        | some e3 => simp [Option.orElse]; rw [vAsMlBasicPretty_some _ _ h3]; exact mlb
+        | none =>
+          cases h4 : vAsMlLiteral (valueMetrics s) with
+          | some e4 => simp [Option.orElse]; exact T10_ml_literal s rest e4 h4 hr.2
+          | none =>
+            simp [Option.orElse]
+            split
+            · exact mlb
+            · exact basic
+
+/-- a default value style exists for every string (and, by `T10_value`, it round-trips) -/
+theorem T10_value_default_total (s : Bytes) : (writeValue .default s).isSome = true := by
+  simp [writeValue, valueEncoding]
+
+/-- **Every key style the builder offers** parses back to exactly the string. -/
+theorem T10_key (st : KStyle) (s tok rest : Bytes) (h : writeKey st s = some tok) (hr : KeyFollow rest) :
+    simpleKey (tok ++ rest) = .ok s rest := by
+  unfold writeKey at h
+  simp only [Option.map_eq_some_iff] at h
+  obtain ⟨e, he, htok⟩ := h
+  subst htok
+  obtain ⟨k1, k2, k3⟩ := km_fold s { unquoted := !s.isEmpty }
+  have basic : simpleKey (writeTomlValue s (some .basic) false ++ rest) = .ok s rest := by
+    have := basic_body_rt s 0 ((escBody false 0 s ++ 0x22 :: rest).length + 1) rest [] (by omega)
+    simp [writeTomlValue, delimiter, isMl, isEscaped, simpleKey, basicString]
+    simpa using this
+  have literal : ∀ e', kAsLiteral (keyMetrics s) = some e' → simpleKey (writeTomlValue s e' false ++ rest) = .ok s rest := by
+    intro e' h'
+    obtain ⟨he', hm⟩ := kAsLiteral_some _ _ h'
+    subst he'
+    unfold keyMetrics at hm
+    rw [k2, k3] at hm
+    have hall : s.all isLiteralChar = true := by
+      simp at hm
+      simp only [List.all_eq_true]
+      intro b hb
+      exact key_literal_ok b (hm.1 b hb) (hm.2 b hb)
+    simp [writeTomlValue, delimiter, isMl, isEscaped, simpleKey]
+    exact literal_rt s rest hall
+  have bare : ∀ e', kAsUnquoted (keyMetrics s) = some e' → simpleKey (writeTomlValue s e' false ++ rest) = .ok s rest := by
+    intro e' h'
+    obtain ⟨he', hm⟩ := kAsUnquoted_some _ _ h'
+    subst he'
+    unfold keyMetrics at hm
+    rw [k1] at hm
+    simp only [Bool.and_eq_true] at hm
+    have hall : s.all isUnquotedChar = true := by
+      have := hm.2
+      simp only [List.all_eq_true] at this ⊢
+      intro b hb; rw [← bare_is_unquoted]; exact this b hb
+    have htake := takeUnquoted_all s rest hall hr
+    cases s with
+    | nil => simp at hm
+    | cons b t =>
+      simp only [List.all_cons, Bool.and_eq_true] at hall
+      obtain ⟨n1, n2⟩ := unquoted_not_delim b hall.1
+      simp [writeTomlValue, delimiter, isMl, isEscaped, simpleKey, n1, n2, unquotedKey]
+      simp at htake
+      rw [htake]
+  cases st with
+  | basic => simp [keyEncoding] at he; subst he; exact basic
+  | basicPretty => rw [kAsBasicPretty_some _ _ he]; exact basic
+  | literal => exact literal e he
+  | unquoted => exact bare e he
+  | default =>
+    simp only [keyEncoding, Option.some.injEq] at he
+    subst he
+    unfold kAsDefault
+    cases h1 : kAsUnquoted (keyMetrics s) with
+    | some e1 => simp [Option.orElse]; exact bare e1 h1
+    | none =>
+      cases h2 : kAsBasicPretty (keyMetrics s) with
+      | some e2 => simp [Option.orElse]; rw [kAsBasicPretty_some _ _ h2]; exact basic
+      | none =>
+        cases h3 : kAsLiteral (keyMetrics s) with
+        | some e3 => simp [Option.orElse]; exact literal e3 h3
+        | none => simp [Option.orElse]; exact basic
+
+theorem T10_key_default_total (s : Bytes) : (writeKey .default s).isSome = true := by
+  simp [writeKey, keyEncoding]
+
+/-! ### non-vacuity: concrete strings meet the hypotheses and exercise every style -/
+example : writeValue .mlLiteral [0x27, 0x27, 0x0A, 0x5C] = some [0x27,0x27,0x27,0x0A,0x27,0x27,0x0A,0x5C,0x27,0x27,0x27] := by decide
+example : writeValue .literal [0x61, 0x22, 0x5C] = some [0x27, 0x61, 0x22, 0x5C, 0x27] := by decide
+example : writeValue .literal [0x27] = none := by decide
+example : writeValue .mlBasic [0x22, 0x22, 0x22, 0x01] =
+    some [0x22,0x22,0x22, 0x22,0x22,0x5C,0x22, 0x5C,0x75,0x30,0x30,0x30,0x31, 0x22,0x22,0x22] := by decide
+example : writeKey .unquoted [0x61, 0x2D] = some [0x61, 0x2D] := by decide
+example : writeKey .default [] = some [0x22, 0x22] := by decide
+example : ValueFollow [0x0A] ∧ KeyFollow [0x20, 0x3D] := by
+  refine ⟨⟨by decide, by decide⟩, ?_⟩
+  intro x r h; injection h with h _; subst h; decide
+
 end TomlVerif.Props.C10
